@@ -42,7 +42,10 @@ def budget(text: str) -> int:
 
 def expansion_bound(text: str) -> int:
     """crude upper bound of expanded statements from explicit loop counts"""
-    nums = [int(x, 16) if x.lower().startswith("0x") else int(x) for x in re.findall(r"0[xX][0-9a-fA-F]+|\d+", text)][:200]
+    # every number of the text can reach a loop bound (through constants, macro arguments, ...) except the target of a
+    # `*=` / `@=` line, which is an address and never a count
+    relevant = "\n".join(ln for ln in text.split("\n") if not ln.lstrip().startswith(("*=", "@=")))
+    nums = [int(x, 16) if x.lower().startswith("0x") else int(x) for x in re.findall(r"0[xX][0-9a-fA-F]+|\d+", relevant)][:200]
     biggest = max(nums + [1])
     loops = text.count(".for")
     if loops == 0:
@@ -122,6 +125,12 @@ def structured_inputs(d: int):
     for j, body in enumerate(("i_v := 0", "i_v := i_v - 1", "i_v := i_v & 1", "i_v = 0", "{\ni_v := 0\n}", ".if 1 {\ni_v := 0\n}", ".if i_v {\ni_v := i_v - 1\n}",
                               "k_hi := k_hi + 1", "k_lo := k_lo - 1", "i_v := k_hi - 2", ".for i_v := 0, 2 {\ni_v := 0\n}", "m_w(i_v)")):
         ins.append((f"loop-writes-its-variable:{j}:bound={3 * n_it * 8}", org + f"k_lo := 0\nk_hi := {n_it}\n.macro m_w(p) {{\np := 0\ni_v := 0\n}}\n.for i_v := k_lo, k_hi {{\n{body}\n.db i_v\n}}\n"))
+    # .text without any table, at every kind of nesting: a reported error, whatever the depth
+    ins.append(("text-no-table-nested-blocks", org + "{\n" * d + ".text 'abc'\n" + "}\n" * d))
+    ins.append(("text-no-table-nested-scopes", org + "".join(f".scope st_{i} {{\n" for i in range(min(d, 24))) + ".text 'abc'\n" + "}\n" * min(d, 24)))
+    ins.append(("text-no-table-macro-in-scope", org + ".macro m_t() {\n.text 'abc'\n}\n.scope st_m {\n{\nm_t()\n}\n}\n"))
+    ins.append(("text-no-table-loop", org + ".for i_t := 0, 2 {\n{\n.text 'abc'\n}\n}\n"))
+    ins.append(("text-no-table-if", org + ".if 1 {\n{\n{\n.text 'abc'\n}\n}\n}\n"))
     ins.append(("struct-with-comments", org + ".struct st_x {\n" + "; c\n" * d + "}\n"))
     ins.append(("struct-empty", org + ".struct st_y {\n}\n.struct st_z {\n/* c */\n}\n"))
     ins.append(("struct-unclosed", org + ".struct st_w {\n; c\n" * min(d, 8)))
